@@ -536,3 +536,90 @@ func rtAdopt(a *aggregator, v *rtView) {
 	a.Decide(len(bad) == 0, "R-adopt-condition", construct, cfg, v.in.srcPos(f.Pos()),
 		fmt.Sprintf("%d orderings of (stacked begin/end, new begin/end) that can occur in a post-order list: adopted exactly when nested (equal spans included)", n), strings.Join(bad, "; "))
 }
+
+// rtTranslateDomain: R-translate-domain — translatePositions records a
+// translation only for offsets its loop visits, i.e. indices of the slice it
+// is given. Token offsets range over 0..len(input) inclusive, and the only
+// slice that has the index len(input) is the parser's sentinel-terminated
+// rune buffer. So every caller must pass that buffer whole, and the loop
+// must range over the parameter whole.
+func rtTranslateDomain(a *aggregator, v *rtView) {
+	cfg := v.in.Name
+	f := v.in.SSA.Func("translatePositions")
+	construct := "translatePositions is given, and walks, the whole sentinel-terminated buffer"
+	if f == nil || len(f.Params) != 2 {
+		a.Und("R-translate-domain", construct, cfg, "", "func translatePositions(buffer, positions) not found")
+		return
+	}
+	var bad []string
+	// inside: no re-slicing of the buffer parameter, and a len(buffer) bound
+	buf := f.Params[0]
+	hasLen := false
+	for _, ref := range *buf.Referrers() {
+		switch x := ref.(type) {
+		case *ssa.Slice:
+			if x.Low != nil || x.High != nil {
+				bad = append(bad, v.in.srcPos(x.Pos())+": translatePositions walks a sub-slice of its buffer; offsets outside it get no translation")
+			}
+		case *ssa.Call:
+			if calleeName(x) == "builtin.len" {
+				hasLen = true
+			}
+		}
+	}
+	if !hasLen {
+		// `for range buffer` always takes len(buffer); without it the loop is of another shape
+		instrsOf(f, func(in ssa.Instruction) {
+			if r, ok := in.(*ssa.Range); ok && r.X == ssa.Value(buf) {
+				hasLen = true
+			}
+		})
+	}
+	if !hasLen {
+		bad = append(bad, v.in.srcPos(f.Pos())+": no loop over the buffer parameter bounded by len(buffer) was found")
+	}
+	// callers
+	n := 0
+	for _, g := range v.all {
+		instrsOf(g, func(in ssa.Instruction) {
+			cl, ok := in.(*ssa.Call)
+			if !ok || cl.Call.StaticCallee() == nil || originFn(cl.Call.StaticCallee()) != originFn(f) {
+				return
+			}
+			n++
+			arg := cl.Call.Args[0]
+			if sl, ok := arg.(*ssa.Slice); ok {
+				if sl.Low == nil && sl.High == nil {
+					arg = sl.X
+				} else {
+					bad = append(bad, v.in.srcPos(cl.Pos())+": "+fnName(g)+" passes a sub-slice of the buffer to translatePositions: an offset at the end of the input (a token ending at end of input, or the empty input) is never translated and is reported as line 0 symbol 0")
+					return
+				}
+			}
+			u, ok := arg.(*ssa.UnOp)
+			if !ok || u.Op != token.MUL {
+				bad = append(bad, v.in.srcPos(cl.Pos())+": "+fnName(g)+" passes "+arg.Name()+", not the parser's buffer field")
+				return
+			}
+			fa, ok := u.X.(*ssa.FieldAddr)
+			if !ok {
+				bad = append(bad, v.in.srcPos(cl.Pos())+": "+fnName(g)+" passes a value that is not a field of the parser")
+				return
+			}
+			st := derefStruct(fa.X.Type())
+			if st == nil || st.Field(fa.Field).Name() != "buffer" {
+				name := "?"
+				if st != nil {
+					name = st.Field(fa.Field).Name()
+				}
+				bad = append(bad, v.in.srcPos(cl.Pos())+": "+fnName(g)+" passes the field "+name+"; only the rune buffer with the end symbol appended has an index for every token offset")
+			}
+		})
+	}
+	if n == 0 {
+		a.Und("R-translate-domain", construct, cfg, v.in.srcPos(f.Pos()), "translatePositions has no caller in this instantiation")
+		return
+	}
+	a.Decide(len(bad) == 0, "R-translate-domain", construct, cfg, v.in.srcPos(f.Pos()),
+		fmt.Sprintf("%d call site(s) pass p.buffer (input runes + end symbol) whole; the loop ranges over the parameter whole: offsets 0..len(input) are all visited", n), strings.Join(bad, "; "))
+}
